@@ -12,6 +12,7 @@ import (
 	"fmt"
 	"io"
 	"os"
+	"runtime/debug"
 	"strconv"
 	"strings"
 	"testing"
@@ -193,6 +194,9 @@ func Observe(label string, v any) {
 
 // RunReplay runs the recorded cases against the natively compiled harnesses.
 func RunReplay(t *testing.T, fns map[string]func()) {
+	// no garbage collection while replaying: a collection empties every
+	// sync.Pool, which would make findings about pooled buffers irreproducible
+	defer debug.SetGCPercent(debug.SetGCPercent(-1))
 	path := os.Getenv("VP_CASES")
 	if path == "" {
 		t.Skip("VP_CASES not set")
